@@ -192,3 +192,8 @@ def two_agg_pipeline(n, shard_index=0, num_shards=1):
   a = transform.TreeTransform.new(name='a').data_source(ds).apply(fn=add100).aggregate(fn=CollectInPlace(), output_keys='x')
   b = transform.TreeTransform.new(name='b').apply(fn=inc).aggregate(fn=CollectInPlace(), output_keys='y')
   return a.chain(b)
+
+
+def vpar(x):
+  """One-row batch with two columns: the value + 100 and its parity (the slicing feature)."""
+  return [x + 100], [x % 2]
